@@ -63,3 +63,21 @@ func vrtHarness_C04_keyInjective() {
 			vrtDoBit(q1) == vrtDoBit(q2)))
 	}
 }
+
+// Long names: the presentation form of a name can exceed 255 bytes (escaped octets take four
+// bytes).  Keys of two queries that differ only in their (equally long) names must differ.
+func vrtHarness_C04_longNames() {
+	lens := []int{254, 255, 256, 257, 300, 511, 512}
+	n := lens[vrtChoice(len(lens))]
+	q1, q2 := new(dns.Msg), new(dns.Msg)
+	q1.Question = []dns.Question{{Name: vrtString(n), Qtype: dns.TypeA, Qclass: dns.ClassINET}}
+	q2.Question = []dns.Question{{Name: vrtString(n), Qtype: dns.TypeA, Qclass: dns.ClassINET}}
+	k1, k2 := getMsgKey(q1), getMsgKey(q2)
+	vrtCover("long names compared", true)
+	vrtAssert("both cacheable", vrtAnd(k1 != "", k2 != ""))
+	vrtAssert("equal keys imply equal names, however long the names are", vrtImplies(vrtStrEq(k1, k2), vrtStrEq(q1.Question[0].Name, q2.Question[0].Name)))
+	// and names of different length never share a key
+	q3 := new(dns.Msg)
+	q3.Question = []dns.Question{{Name: vrtString(n + 256), Qtype: dns.TypeA, Qclass: dns.ClassINET}}
+	vrtAssert("names whose lengths differ by 256 do not share a key", !vrtStrEq(getMsgKey(q3), k1))
+}
